@@ -125,6 +125,15 @@ CLAIMS.update({
              "worker's processed count, and if an un-cancelled run had finished the snapshot is exactly that run's result (count, pattern, stream); the remaining step (the snapshot "
              "already equals the worker's result when no run finished since the last look) is evaluated as an oracle clause on every tick of every history.",
         note=NU_NOTE),
+    "C11": dict(
+        technique="Lean 4 theorems about the translated Drop loop and the reference-count model + drop-counter / allocation-balance correspondence",
+        text="Theorems: the Drop loop (its break/continue shape is translated from the source on every run) visits every allocated bucket wherever it sits (repair of F12, with the "
+             "decided witness for the old loop); entries are only ever marked active inside an allocated bucket, for every sequential history of pushes and batches (honest or "
+             "lying, with panicking callbacks); dropping the vector therefore drops every published item, each read off one entry (at most once); a panicking callback's item is "
+             "dropped by unwinding and its entry never becomes active; a batch partitions its items into written and unwound ones. 'Only after it is unreachable' uses the reference "
+             "count of C20: in the correspondence run the destroyed items after every event of every Nucleo history must be exactly those of streams with zero handles.",
+        note="Trusted: Lean kernel, axioms propext/Classical.choice/Quot.sound, translator (Drop/dealloc shape), harness (per-item drop counters, counting global allocator) + driver. "
+             "Arc, unwinding and the allocator are modelled, not verified; concurrency of the vector itself is C08."),
     "C18": dict(
         technique="Lean 4 theorems (permutation by construction of a swap-only model, uniqueness of the sorted order for the worker's total order) + exact-output correspondence with the real sort",
         text="Theorems: for every comparison function (even inconsistent), every oracle for the cancel-flag reads, every input: the resulting slice is a permutation of the input "
